@@ -65,6 +65,8 @@ GUARDS = [
     (['C02'], 'finalize_bucket', 'src/xact.cc', r'bool\s+xact_base_t::finalize\s*\(\s*\)\s*\{', [
         'if (journal && journal->bucket && posts.size() == 1 && ! balance.is_null()) {',
         'null_post = new post_t(journal->bucket, ITEM_INFERRED);']),
+    (['C01'], 'zero_test_of_a_balance_is_display_zero', 'src/value.cc', r'bool\s+value_t::is_zero\s*\(\s*\)\s*const\s*\{', [
+        'case AMOUNT: return as_amount().is_zero();', 'case BALANCE: return as_balance().is_zero();']),
     (['C02'], 'bucket_latest_declaration_wins_A', 'src/textual.cc', r'void\s+instance_t::default_account_directive\s*\(', [
         'context.journal->bucket = top_account()->find_account(skip_ws(line));']),
     (['C02'], 'bucket_latest_declaration_wins_default', 'src/textual.cc', r'void\s+instance_t::account_default_directive\s*\(', [
